@@ -649,18 +649,18 @@ class PortCollection (object):
       for p in self._ports:
         if p.port_no == index:
           return p
+      if self._chain and index not in self._masks:
+        return self._chain[index]
     elif isinstance(index, EthAddr):
-      for p in self._ports:
+      # Names and addresses are looked up in the current view only: going
+      # down the chain would find ports that were since changed or removed.
+      for p in self.values():
         if p.hw_addr == index:
           return p
     else:
-      for p in self._ports:
+      for p in self.values():
         if p.name == index:
           return p
-    if self._chain:
-      p = self._chain[index]
-      if p.port_no not in self._masks:
-        return p
 
     raise IndexError("No key %s" % (index,))
 
